@@ -281,6 +281,20 @@ def s7(chk: Check, proj: Project, m, fc) -> None:
         ok = bool(reads) and all(fnp in {x.id for x in ast.walk(v) if isinstance(x, ast.Name)} for _s, v in reads)
         chk.ob("S7", f"util.template_tag:_validate_params_with_code:{attr}-fresh", m.loc(reads[0][0]) if reads else m.loc(fc), ok, f"`{attr}` is read from `{fnp}` in this call" if ok else
                f"`{attr}` is not read from the function object `{fnp}` in this call: two render functions that share a code object but differ in defaults (closures, factories) get each other's defaults")
+    def _bounded_use(n: ast.AST) -> bool:
+        p_ = parent(n)
+        if isinstance(p_, ast.Subscript) and p_.value is n and isinstance(p_.slice, ast.Slice) and p_.slice.upper is not None:
+            return True
+        if isinstance(p_, ast.Call) and norm(p_.func) == "len":
+            return True
+        return False
+
+    raw_alias = {t.id for st in stmts(fc) if isinstance(st, ast.Assign) and isinstance(st.value, ast.Attribute) and st.value.attr == "co_varnames" for t in st.targets if isinstance(t, ast.Name)}
+    raw = [n for n in ast.walk(fc) if ((isinstance(n, ast.Attribute) and n.attr == "co_varnames" and not (isinstance(parent(n), ast.Assign) and parent(n).value is n and all(isinstance(t, ast.Name) for t in parent(n).targets)))
+                                      or (isinstance(n, ast.Name) and n.id in raw_alias and isinstance(n.ctx, ast.Load))) and not _bounded_use(n)]
+    chk.ob("S7", "util.template_tag:_validate_params_with_code:varnames-only-sliced", m.loc(raw[0]) if raw else m.loc(fc), not raw,
+           "co_varnames is only used sliced to the parameter names" if not raw else
+           f"`{short(enclosing_stmt(raw[0]))}` uses the whole co_varnames (parameters AND the *args/**kwargs names AND every local variable of render) as if it were the parameter list: a keyword spelled like a local of render() is rejected although **kwargs would take it")
     inv = {k: g for k, g in inventory(proj).items() if k.startswith("util.template_tag:") and g.kind in ("dict", "list", "set", "container", "lru_cache", "weakdict")}
     chk.ob("S7", "util.template_tag:no-module-memo", m.loc(m.tree), not inv, "util.template_tag has no module-level mutable state" if not inv else f"module-level state {sorted(inv)} in the validation module: validation results depend on earlier calls")
 
